@@ -54,6 +54,23 @@ def sweep_cases(tier):
         # 230-byte names: 35 entries cross 8 KiB; 280 cross 64 KiB
         spec = [E(b"L", "dir", 0o755)] + [E(b"L/" + (b"%04d" % i) + b"x" * 226, "fifo", 0o600) for i in range(n)]
         yield dict(kind="sweep-dirents-longnames", names=("n=%d" % n,), spec=spec, cfg=gz, mode="packfile")
+    # (a2) listing size one byte at a time across the 64 KiB boundary (basic/extended directory inode switch) and the 8 KiB metadata block
+    def listing_dir(total_name_bytes, n):
+        base, extra = divmod(total_name_bytes, n)
+        ents = []
+        for i in range(n):
+            ln = base + (1 if i < extra else 0)
+            ents.append(E(b"W/" + (b"%03d" % i) + b"y" * (ln - 3), "fifo", 0o600))
+        return [E(b"W", "dir", 0o755)] + ents
+    n = 250
+    # listing = 12 * headers + 8 * n + names ; headers is 1 or 2 => sweep a window that covers both
+    # ~253-byte names: a run of entries must fit one 8 KiB metadata block, so there are ~15 headers; the window is wide enough for 10..20
+    for tb in (range(63300, 63420) if quick else range(63200, 63600)):
+        yield dict(kind="sweep-listing-64k", names=("name-bytes=%d" % tb,), spec=listing_dir(tb, n), cfg=gz, mode="packfile")
+    n = 40
+    lo8 = 8192 - 8 * n - 12 * 2 - 4
+    for tb in (range(lo8 - 30, lo8 + 30) if quick else range(lo8 - 40, lo8 + 60)):
+        yield dict(kind="sweep-listing-8k", names=("name-bytes=%d" % tb,), spec=listing_dir(tb, n), cfg=gz, mode="packfile")
     # (b) file sizes at both block sizes, content classes
     sizes = list(range(0, 17)) + [B - 1, B, B + 1, 2 * B - 1, 2 * B, 2 * B + 1, 3 * B + 1] if quick else \
         list(range(0, 65)) + [j * B + d for j in (1, 2, 3) for d in (-1, 0, 1)] + [131071, 131072, 131073]
